@@ -1,3 +1,44 @@
+/-
+Transactions over the server log are all-or-nothing on every replica (C09 end to end, List datatype).
+Namespace `Orda.LTx`.  Reuses `LNet.Node`, `LNet.Net`, `LNet.Net.init`, `LNet.CuidsDistinct`, `LNet.SameOps`, `LNet.Quiescent`.
+
+THE SYSTEM (§1).  `Step`:
+  * `call i c`      — ANY public call: `r := (r.call c).1`;
+  * `tx i tag calls stopOnErr failAtEnd` — a user transaction with ANY body: `r := (r.txCalls tag calls stopOnErr failAtEnd).1`;
+  * `pushAll i`     — ALL unpushed operations of node `i`'s buffer go to the end of the log, in buffer order;
+  * `pullAll i`     — node `i` consumes the whole rest of the log: the entries of the others (`pullOps`), in log order, go
+                      through ONE `Replica.receive`; `pulled := log.length`.
+`Reach cuid n net`: reachable from `n` fresh subscribers; `Reach.init` carries `CuidsDistinct cuid n`.  No step has a side
+condition.  `act`/`run`: executable form.  `IsUnit u`: `u = [o]`, `o` not a header, or
+`u = ⟨id, .transaction tag (k+1)⟩ :: ops` with `ops.length = k` and no header in `ops` (`k = 0`: the lone header of an empty
+transaction).  `Applied net i e`: entry `e` is among the foreign entries node `i` has consumed (`oth i (log.take pulled)`).
+
+RESULTS (§7), no hypothesis beyond `Reach`:
+  * `ltx_failed_tx_is_noop` (+ `_net`): a transaction that ends with an error leaves identifier, state, buffer, checkpoint
+    as they were (`net' = net` itself is FALSE: the rollback re-bases `rbOps`/`rbSnap`, see `Ex`);
+    `ltx_tx_never_panics`: in reachable states a transaction ends `.ok ()` or `.err _`;
+  * `ltx_committed_tx_is_one_unit`: `.ok ()` ⇒ the buffer grew by exactly `header :: ops`, an `IsUnit`;
+  * `ltx_log_is_units`: the log is a concatenation of units;
+  * `ltx_all_or_nothing`: ONE decomposition of the log such that every node has applied all or none of every foreign unit
+    (`ltx_all_or_nothing_pos`: `pulled` never sits inside a unit; `ltx_log_nodup`); `ltx_receive_ok`: `receive` returns
+    `.ok ()` on what a node pulls, always; `ltx_nodes_applied_ops`: ties `pulled` to the state;
+  * `ltx_same_operations_same_state`, `ltx_quiescent_converged` (`sameOps_of_caught_up`, `sameOps_of_quiescent`),
+    `ltx_can_quiesce` (quiescence is reachable from every state).
+
+HOW (convergence): NOT by redoing `ListNet`, and not by a step-for-step simulation into `LNet.Reach` either (impossible as
+stated: a header consumes an operation identifier, so the replicas of the two systems would stamp their operations
+differently).  Instead `ListNet`'s INVARIANT `LNet.Inv` is reused as a black box on the header-erased state:
+`TInv.sim : ∃ net0 ap, LNet.Inv cuid n net0 ap ∧ Abs net net0` (`ltx_erased_satisfies_lnet_inv`), where `Abs` says `net0` has
+the same states and clocks, the buffers / log without headers, and the counters of the non-header entries.  `LNet.Inv` is
+closed under `ListNet`'s steps from ANY state satisfying it (`Inv.call`, `Inv.push`, `Inv.pull`) and under clock bumps
+(`nodeInv_noop`: the invariant bounds clocks only from below).  A call is `Inv.call`; `pushAll` is `inv_pushes`; a
+committed transaction is a clock bump (the header) followed by the `call`s of its successful operations (`body_sim`, on an
+abstract replica with the same state and clock); a failed one changes nothing (`tx_cases`); `pullAll` is `inv_pulls`
+followed by a clock bump (`recv_sim`: `receive` applies every unit, executes a lone header — clock only —, skips the others).
+§0: validated local list operations never panic when Size = number of live elements (`execLocal_prepared_no_panic`), remote
+ones never when the body is `RemoteSafe` — needed because a panic in a transaction body would leave operations in the state
+that are not in the buffer.
+-/
 import Orda.Proofs.ListNetOrder
 import Orda.Proofs.SeqSnap
 set_option linter.unusedSimpArgs false
@@ -1848,6 +1889,12 @@ theorem ltx_all_or_nothing (h : Reach cuid n net) : ∃ units : List (Nat × Lis
 
 /-! ### convergence -/
 
+/-- HOW convergence is obtained: erasing the headers from log and buffers (`Abs`) turns every reachable state into a
+    state that satisfies the invariant `LNet.Inv` of `ListNet` — every step of this system is a sequence of `ListNet` steps
+    (`Inv.call`, `Inv.push`, `Inv.pull`) and clock bumps (`nodeInv_noop`), under which that invariant is closed -/
+theorem ltx_erased_satisfies_lnet_inv {cuid : Nat → String} {n : Nat} {net : Net} (h : Reach cuid n net) :
+    ∃ net0 ap, Inv cuid n net0 ap ∧ Abs net net0 := (tinv_reach h).sim
+
 theorem appliedOps_abs {net net0 : Net} (Ab : Abs net net0) {i : Nat} {nd nd0 : Node} (An : AbsNode net.log nd nd0) :
     (appliedOps net0.log i nd0).filterMap toL = (appliedOps net.log i nd).filterMap toL := by
   unfold appliedOps
@@ -1926,6 +1973,78 @@ theorem ltx_quiescent_converged (h : Reach cuid n net) (hq : Quiescent net) (i j
     (hj : j < net.nodes.length) : net.nodes[i].r.state = net.nodes[j].r.state :=
   ltx_same_operations_same_state h i j hi hj (sameOps_of_quiescent h hq hi hj)
 
+/-! ### quiescence is reachable from every state -/
+
+/-- zero or more steps -/
+inductive Reaches : Net → Net → Prop
+  | refl (net : Net) : Reaches net net
+  | tail {a b c : Net} : Reaches a b → Step b c → Reaches a c
+
+theorem reach_of_reaches {net' : Net} (hr : Reach cuid n net) (h : Reaches net net') : Reach cuid n net' := by
+  induction h with
+  | refl => exact hr
+  | tail _ hs ih => exact .step ih hs
+
+theorem Reaches.trans {a b c : Net} (h1 : Reaches a b) (h2 : Reaches b c) : Reaches a c := by
+  induction h2 with
+  | refl => exact h1
+  | tail _ hs ih => exact .tail ih hs
+
+/-- every node pushes its whole buffer, one after the other -/
+theorem push_sweep (net : Net) : ∀ k, k ≤ net.nodes.length → ∃ net', Reaches net net' ∧
+    net'.nodes.length = net.nodes.length ∧
+    ∀ (j : Nat) (nd : Node), j < k → net'.nodes[j]? = some nd → nd.pushed = nd.r.buffer.length
+  | 0, _ => ⟨net, .refl net, rfl, fun j nd hj => absurd hj (Nat.not_lt_zero _)⟩
+  | k + 1, hk => by
+    obtain ⟨net', h1, h2, h3⟩ := push_sweep net k (by omega)
+    have hlt : k < net'.nodes.length := by omega
+    have hi := List.getElem?_eq_getElem hlt
+    refine ⟨_, .tail h1 (.pushAll net' k _ hi), by simp [h2], ?_⟩
+    intro j nd hj hnd
+    rcases getElem?_set_some hnd with ⟨rfl, rfl⟩ | ⟨hne, hj'⟩
+    · rfl
+    · exact h3 j nd (by omega) hj'
+
+/-- then every node pulls the whole log, one after the other -/
+theorem pull_sweep (net : Net) (hp : ∀ nd ∈ net.nodes, nd.pushed = nd.r.buffer.length) :
+    ∀ k, k ≤ net.nodes.length → ∃ net', Reaches net net' ∧
+    net'.nodes.length = net.nodes.length ∧ net'.log = net.log ∧
+    (∀ nd ∈ net'.nodes, nd.pushed = nd.r.buffer.length) ∧
+    ∀ (j : Nat) (nd : Node), j < k → net'.nodes[j]? = some nd → nd.pulled = net.log.length
+  | 0, _ => ⟨net, .refl net, rfl, rfl, hp, fun j nd hj => absurd hj (Nat.not_lt_zero _)⟩
+  | k + 1, hk => by
+    obtain ⟨net', h1, h2, h3, h4, h5⟩ := pull_sweep net hp k (by omega)
+    have hlt : k < net'.nodes.length := by omega
+    have hi := List.getElem?_eq_getElem hlt
+    refine ⟨_, .tail h1 (.pullAll net' k _ hi), by simp [h2], h3, ?_, ?_⟩
+    · intro nd hnd
+      obtain ⟨j, hj⟩ := List.mem_iff_getElem?.mp hnd
+      rcases getElem?_set_some hj with ⟨rfl, rfl⟩ | ⟨hne, hj'⟩
+      · show net'.nodes[j].pushed = (net'.nodes[j].r.receive _).1.buffer.length
+        rw [(receive_fields _ _).1]
+        exact h4 _ (List.getElem_mem hlt)
+      · exact h4 nd (List.mem_of_getElem? hj')
+    · intro j nd hj hnd
+      rcases getElem?_set_some hnd with ⟨rfl, rfl⟩ | ⟨hne, hj'⟩
+      · exact congrArg List.length h3
+      · exact h5 j nd (by omega) hj'
+
+/-- **quiescence is reachable**: from every state, `pushAll` by every node followed by `pullAll` by every node (every
+    `receive` succeeds by `ltx_receive_ok`) ends in a quiescent state -/
+theorem ltx_can_quiesce (net : Net) : ∃ net', Reaches net net' ∧ Quiescent net' := by
+  obtain ⟨net1, r1, l1, p1⟩ := push_sweep net net.nodes.length (Nat.le_refl _)
+  have hp1 : ∀ nd ∈ net1.nodes, nd.pushed = nd.r.buffer.length := by
+    intro nd hnd
+    obtain ⟨j, hj⟩ := List.mem_iff_getElem?.mp hnd
+    have := (List.getElem?_eq_some_iff.mp hj).1
+    exact p1 j nd (by omega) hj
+  obtain ⟨net2, r2, l2, g2, p2, q2⟩ := pull_sweep net1 hp1 net1.nodes.length (Nat.le_refl _)
+  refine ⟨net2, r1.trans r2, ?_⟩
+  intro nd hnd
+  obtain ⟨j, hj⟩ := List.mem_iff_getElem?.mp hnd
+  have := (List.getElem?_eq_some_iff.mp hj).1
+  exact ⟨p2 nd hnd, by rw [g2]; exact q2 j nd (by omega) hj⟩
+
 end theorems
 
 /-! ## 8. non-vacuity: three nodes, transactions (committed, failing, empty), concurrent plain calls, a run to quiescence
@@ -2001,6 +2120,13 @@ example : ∃ nd, (((run (Net.init cu 3) (acts.take 6)).getD ⟨[], []⟩).nodes
     (nd.r.txCalls "t2" [.linsert 1 [.str "x"], .linsert 7 [.str "y"]] true false).1.buffer = nd.r.buffer := by
   refine ⟨_, rfl, ?_, ?_⟩ <;> rfl
 
+/-- why `ltx_failed_tx_is_noop` is about identifier, state, buffer and checkpoint and NOT `net' = net`: the rollback
+    re-bases the rollback data (here the rollback operations of node 2, which held the insert it had pulled, are emptied) -/
+example : ∃ nd, (((run (Net.init cu 3) (acts.take 6)).getD ⟨[], []⟩).nodes[2]? = some nd) ∧
+    nd.r.rbOps.length = 1 ∧
+    (nd.r.txCalls "t2" [.linsert 1 [.str "x"], .linsert 7 [.str "y"]] true false).1.rbOps.length = 0 := by
+  refine ⟨_, rfl, ?_, ?_⟩ <;> rfl
+
 /-- `ltx_quiescent_converged` instantiated -/
 example : (finalNet.nodes[0]'(by rw [len_final]; decide)).r.state = (finalNet.nodes[1]'(by rw [len_final]; decide)).r.state :=
   ltx_quiescent_converged reach_final quiescent_final 0 1 (by decide) (by decide)
@@ -2015,7 +2141,15 @@ def common : DState := .list
   ⟨[⟨a0, none, ⟨0, 4, "b", 0⟩⟩, ⟨⟨0, 3, "b", 0⟩, some (.str "u"), ⟨0, 5, "b", 0⟩⟩,
     ⟨⟨0, 2, "c", 0⟩, some (.str "c"), ⟨0, 2, "c", 0⟩⟩, ⟨a1, none, ⟨0, 3, "a", 0⟩⟩], 2⟩
 
--- COMMON
+/-- a decidable rendering of a list state: (identity, live?, value timestamp) per node, the stored Size, and whether the
+    live values are `["u", "c"]` -/
+def render : DState → Option (List (Ts × Bool × Ts) × Int × Bool)
+  | .list l => some (l.nodes.map (fun nd => (nd.o, nd.v.isSome, nd.t)), l.size, l.live == [.str "u", .str "c"])
+  | _ => none
+
+/-- all three nodes hold `common` (kernel evaluation of the run) -/
+theorem final_states : finalNet.nodes.map (fun nd => render nd.r.state) = List.replicate 3 (render common) := by
+  decide +kernel
 
 /-- `ltx_all_or_nothing` instantiated in the NON-quiescent state `midNet`, and both alternatives occur there for the unit
     of `"t1"` (log positions 2–5, written by node 1): node 0 has consumed all of it, node 2 none of it -/
